@@ -486,6 +486,49 @@ pub fn mutants(base: &ExecDoc, sch: &Sch) -> Vec<(&'static str, String, ExecDoc)
             res
         }),
     );
+    // a nullable variable as an ITEM of a list literal whose items are non-null, at every argument that takes such a
+    // list - whether or not the argument has a default value (a default relaxes the location of a variable that
+    // stands for the whole argument, never what may stand inside a literal)
+    for with_default in [false, true] {
+        add(
+            "var.usage",
+            kth(base, |d, k| {
+                let mut n = 0;
+                let mut res = None;
+                let mut item_ty: Option<String> = None;
+                for_each_args(d, sch, &mut |args, defs, what| {
+                    for def in defs {
+                        let Ty::List(_, item) = def.ty.nullable() else { continue };
+                        let Ty::NonNull(inner) = &**item else { continue };
+                        let Ty::Named(base_name) = &**inner else { continue };
+                        if def.default.is_some() != with_default {
+                            continue;
+                        }
+                        if n == k {
+                            let a = args.get_or_insert_with(|| Args { p: p0(), items: vec![] });
+                            a.items.retain(|(kk, _)| kk.s != def.name.s);
+                            a.items.push((nm(&def.name.s), Value::List(p0(), vec![Value::Var(p0(), "nullableItem".into())])));
+                            item_ty = Some(base_name.s.clone());
+                            res = Some(format!("nullable-variable-as-list-item:{what}-argument-{}", if with_default { "with-default" } else { "without-default" }));
+                        }
+                        n += 1;
+                    }
+                });
+                if let Some(t) = item_ty {
+                    for def in d.defs.iter_mut() {
+                        if let ExecDef::Op { vars, .. } = def {
+                            let v = VarDef { p: p0(), name: nm("nullableItem"), ty: Ty::named(&t), default: None, dirs: vec![] };
+                            match vars {
+                                Some((_, vs)) => vs.push(v),
+                                None => *vars = Some((p0(), vec![v])),
+                            }
+                        }
+                    }
+                }
+                res
+            }),
+        );
+    }
     // ---- variable definitions
     if let ExecDef::Op { vars: Some((_, vs)), .. } = &base.defs[first_op] {
         for i in 0..vs.len() {
